@@ -599,6 +599,12 @@ def f4_runtime_names(ctx: Ctx):
                 return own(v.body, depth) and own(v.orelse, depth)
             if isinstance(v, ast.JoinedStr):
                 return bool(v.values) and isinstance(v.values[0], ast.Constant) and str(v.values[0].value).startswith('__fpy_')
+            if isinstance(v, ast.Subscript) and isinstance(v.value, ast.Name):
+                return own(v.value, depth)                 # an element of a list of such names
+            if isinstance(v, ast.ListComp):
+                return own(v.elt, depth)
+            if isinstance(v, (ast.List, ast.Tuple)):
+                return bool(v.elts) and all(own(x, depth) for x in v.elts)
             if isinstance(v, ast.Name):
                 if v.id in ('CTX_NAME', 'REAL_NAME'):
                     return True
@@ -667,6 +673,134 @@ def t5_negated_literals(ctx: Ctx):
         raise ShapeError('operand table shrank')
 
 
+def _comparison_chains(ctx: Ctx):
+    """What the compiler emits for `a0 op a1 op ... an` is built, from the source of `_visit_compare`, with stand-in syntax
+    nodes, for chains of two to four operands over `<`, `==`, `!=`, outside and inside the iterable of a comprehension.
+    The emitted tree is then read as Python reads it (`and` short-circuits, a walrus binds, a lambda application binds its
+    parameter after evaluating its argument) against the chain's own meaning: operands evaluated once each, left to
+    right, operand k+1 only if the first k pairs held; `==` / `!=` decided by `__fpy_eq`, an ordering on operands both
+    wrapped by the real-only guard.  Inside a comprehension iterable no assignment expression may appear at all (Python
+    refuses to compile one there)."""
+    from itertools import product
+
+    from ..minipy import Interp, Obj
+    meths = {n: f for n, (_, _, f) in ctx.repo.methods(BYTE, 'BytecodeCompiler', inherited=False).items()}
+    fn = meths.get('_visit_compare')
+    if fn is None:
+        raise ShapeError('BytecodeCompiler._visit_compare not found')
+    q = 'BytecodeCompiler._visit_compare'
+
+    def node(kind):
+        def make(*a, **k):
+            return Obj(kind, **{f'_{i}': x for i, x in enumerate(a)}, **k)
+        return make
+    kinds = ('Call', 'Name', 'Load', 'Store', 'Constant', 'UnaryOp', 'Not', 'Compare', 'NamedExpr', 'BoolOp', 'And', 'Lambda', 'arguments', 'arg', 'IfExp', 'Tuple', 'List')
+    over = {f'pyast.{k}': node(k) for k in kinds}
+
+    class Stop(Exception):
+        pass
+
+    def run(tree, vals, trace):
+        """Python's reading of the emitted tree."""
+        def ev(t, env):
+            k = t.kind
+            f = t.fields
+            if k == 'operand':
+                trace.append(f['i'])
+                return vals[f['i']]
+            if k == 'guard':
+                return ('guarded', ev(f['arg'], env))
+            if k == 'NamedExpr':
+                v = ev(f['value'], env)
+                env[f['target'].fields['id']] = v
+                return v
+            if k == 'Name':
+                if f['id'] not in env:
+                    raise Stop(f'name {f["id"]} read before it is bound')
+                return env[f['id']]
+            if k == 'BoolOp':
+                if f['op'].kind != 'And':
+                    raise Stop('a connective other than `and`')
+                v = True
+                for x in f['values']:
+                    v = ev(x, env)
+                    if not v:
+                        return v
+                return v
+            if k == 'UnaryOp':
+                return not ev(f['operand'], env)
+            if k == 'Compare':
+                l, r = ev(f['_0'], env), ev(f['_2'][0], env)
+                if not (isinstance(l, tuple) and isinstance(r, tuple)):
+                    raise Stop('an ordering on an operand the real-only guard has not seen')
+                return {'<': l[1] < r[1]}[f['_1'][0].fields['sym']]
+            if k == 'Call':
+                fu = f['func']
+                if fu.kind == 'Name' and fu.fields['id'] == '__fpy_eq':
+                    a_ = [ev(x, env) for x in f['args']]
+                    return a_[0] == a_[1]
+                if fu.kind == 'Lambda':
+                    a_ = [ev(x, env) for x in f['args']]
+                    inner = dict(env)
+                    for p, v in zip(fu.fields['args'].fields['args'], a_):
+                        inner[p.fields['arg']] = v
+                    return ev(fu.fields['body'], inner)
+                raise Stop(f'a call of {fu.kind}')
+            raise Stop(f'a {k} node')
+        return ev(tree, {})
+
+    def has(t, kind):
+        if isinstance(t, Obj):
+            return t.kind == kind or any(has(v, kind) for v in t.fields.values())
+        if isinstance(t, (list, tuple)):
+            return any(has(v, kind) for v in t)
+        return False
+    OPS = {'<': ('LT', lambda a, b: a < b), '==': ('EQ', lambda a, b: a == b), '!=': ('NE', lambda a, b: a != b)}
+    CMP = Obj('CompareOpEnum', **{name: Obj('CompareOp', name=name) for name, _ in OPS.values()})
+    n = 0
+    for depth in (0, 1):
+        for size in (2, 3, 4):
+            for ops in product(OPS, repeat=size - 1):
+                cnt = [0]
+
+                def fresh(prefix='t'):
+                    cnt[0] += 1
+                    return f'{prefix}{cnt[0]}'
+                operands = [Obj('operand', i=i) for i in range(size)]
+                e = Obj('Compare', args=[Obj('Expr', i=i) for i in range(size)], ops=[CMP.fields[OPS[o][0]] for o in ops], loc=None)
+                me = Obj('BytecodeCompiler', _comp_iterable=depth, gensym=Obj('Gensym', fresh=fresh))
+                it = Interp({}, meths, self_obj=me, globals_={'CompareOp': CMP}, is_a=lambda k, c: k == c,
+                            overrides={**over, 'self._visit_expr': lambda a, c: operands[a.fields['i']], 'self._location_to_attributes': lambda loc: {},
+                                       'self._visit_compare_op': lambda op: Obj('cmpop', sym={'LT': '<'}[op.fields['name']]),
+                                       'self._ordered_guard': lambda arg, op, attrs: Obj('guard', arg=arg)})
+                tree = it.call_function(fn, [e, None], bound_self=True)
+                n += 1
+                what = f'`a0 {" ".join(f"{o} a{i + 1}" for i, o in enumerate(ops))}`' + (' in a comprehension iterable' if depth else '')
+                bad = None
+                if depth and has(tree, 'NamedExpr'):
+                    bad = 'an assignment expression is emitted: Python refuses it there (SyntaxError at the first call of `[y for y in (xs if a < b < 3 else ys)]`)'
+                for vals in product((0, 1, 2), repeat=size):
+                    if bad:
+                        break
+                    want_trace, want = [0], True
+                    for i, o in enumerate(ops):
+                        want_trace.append(i + 1)
+                        if not OPS[o][1](vals[i], vals[i + 1]):
+                            want = False
+                            break
+                    trace: list = []
+                    try:
+                        got = bool(run(tree, vals, trace))
+                    except Stop as ex:
+                        bad = f'the emitted expression has {ex}'
+                        break
+                    if trace != want_trace or got != want:
+                        bad = f'at operands {vals}: evaluates operands {trace} and gives {got}; the chain evaluates {want_trace} and gives {want}'
+                ctx.check(bad is None, BYTE, fn, q, f'{what}: each operand once, left to right, as far as the pairs hold; == / != structural, orderings guarded', bad or '')
+    if n < 2 * (3 + 9 + 27):
+        raise ShapeError('chain table shrank')
+
+
 def f3_strict_helpers(ctx: Ctx):
     def ret_template(q):
         fn = ctx.fn(BYTE, q)
@@ -701,20 +835,7 @@ def f3_strict_helpers(ctx: Ctx):
         good = good and '__fpy_list' in names_called_in_arm(z)
     ctx.check(good, BYTE, z.pattern if z else None, 'BytecodeCompiler._visit_naryop', 'zip(..., strict=True) materialised with list(...)',
               'unequal lengths would be truncated silently, or the zip left lazy')
-    fn = ctx.fn(BYTE, 'BytecodeCompiler._visit_compare')
-    eqcalls = [k for k in calls_in(fn) if call_name(k) == 'pyast.Call' and is_name_node(template(kwarg(k, 'func'), {}), ('const', '__fpy_eq'), 'Load')]
-    ords = [k for k in calls_in(fn) if call_name(k) == 'self._ordered_guard']
-    cmpn = [k for k in calls_in(fn) if call_name(k) == 'pyast.Compare']
-    good = len(eqcalls) == 1 and len(ords) == 2 and len(cmpn) == 1 and all(any(o is x for x in ast.walk(cmpn[0])) for o in ords)
-    ctx.check(good, BYTE, fn, 'BytecodeCompiler._visit_compare', '==/!= through __fpy_eq; orderings guard both operands',
-              'comparison emit changed: structural equality or the real-only ordering check is bypassed')
-    tests = [s for s in walk_no_nested(fn) if isinstance(s, ast.If) and 'CompareOp.EQ' in norm(s.test) and 'CompareOp.NE' in norm(s.test)]
-    ctx.check(len(tests) == 1, BYTE, fn, 'BytecodeCompiler._visit_compare', 'EQ and NE are the structural ones', 'dispatch on comparison kind changed')
-    # chained comparison: each middle operand evaluated once (walrus) and clauses joined by `and`
-    walrus = [k for k in calls_in(fn) if call_name(k) == 'pyast.NamedExpr']
-    booland = [k for k in calls_in(fn) if call_name(k) == 'pyast.BoolOp' and call_name(kwarg(k, 'op')) == 'pyast.And']
-    ctx.check(len(walrus) == 1 and len(booland) == 1, BYTE, fn, 'BytecodeCompiler._visit_compare', 'a < b < c evaluates b once and conjoins the pairs',
-              'chain lowering changed')
+    _comparison_chains(ctx)
     og = ctx.fn(BYTE, 'BytecodeCompiler._ordered_guard')
     env = single_assignments(og)
     rets = [s for s in walk_no_nested(og) if isinstance(s, ast.Return)]
@@ -835,6 +956,12 @@ RULES = [
 from ..selftest import Mutant  # noqa: E402
 
 MUTANTS = [
+    Mutant('chain-in-a-comprehension-iterable-bound-by-walrus', BYTE, "        if self._comp_iterable > 0 and len(args) > 2:", "        if False:", 'C04.F3',
+           'finding F119 before its repair: [y for y in (xs if a < b < 3 else ys)] is accepted and fails with SyntaxError'),
+    Mutant('nested-chain-tests-before-binding-the-next-operand', BYTE, "            return bind(i + 1, both)\n", "            return pyast.BoolOp(op=pyast.And(), values=[pair(e.ops[i], load(i), args[i + 1]), bind(i + 1, rest(i + 1))], **attrs)\n", 'C04.F3',
+           'the middle operand is evaluated twice'),
+    Mutant('chain-pairs-joined-without-short-circuit-order', BYTE, "            lhs = args[0] if i == 0 else reuse[i - 1]\n            clauses.append(pair(op, lhs, args[i + 1]))", "            lhs = args[0] if i == 0 else reuse[i - 1]\n            clauses = [pair(op, lhs, args[i + 1])] + clauses", 'C04.F3',
+           'the last pair is tested first: its operand is read before it is bound'),
     Mutant('zip-emitted-by-its-bare-name', BYTE, "                func = pyast.Name(id='__fpy_list', ctx=pyast.Load(), **attrs)", "                func = pyast.Name(id='list', ctx=pyast.Load(), **attrs)", 'C04.F4',
            'finding F106 before its repair: a program variable named list breaks every zip in the function'),
     Mutant('exact-sum-hands-back-the-other-operand-of-a-zero', 'fpy2/number/engine/real.py', "        else:\n            # both are finite\n            match x, y:\n                case Float(), Float():\n                    r = x.as_real() + y.as_real()",
